@@ -338,17 +338,28 @@ func main() {
 	for i := 0; i < *n; i++ {
 		c := &caseRun{d: dedupebuffer.New(), s: &sink{view: map[int]int{}}}
 		var tag string
-		switch k := r.intn(10); {
-		case k < 5:
-			tag = "gen:protocol"
-			genProtocol(r, c)
-		case k < 8:
-			tag = "gen:random"
-			genRandom(r, c, false)
-		default:
-			tag = "gen:boundary"
-			genRandom(r, c, true)
-		}
+		func() {
+			// A panic inside the real code must become a failing case with a replay, not a dead driver:
+			// record an operation without an observation, which the oracle rejects.
+			defer func() {
+				if e := recover(); e != nil {
+					c.ops = append(c.ops, "OpPull 0%nat")
+					c.human = append(c.human, fmt.Sprintf("PANIC in the real code during the next operation: %v", e))
+					tag += "+panic"
+				}
+			}()
+			switch k := r.intn(10); {
+			case k < 5:
+				tag = "gen:protocol"
+				genProtocol(r, c)
+			case k < 8:
+				tag = "gen:random"
+				genRandom(r, c, false)
+			default:
+				tag = "gen:boundary"
+				genRandom(r, c, true)
+			}
+		}()
 		coq := fmt.Sprintf("{| c_ops := [%s]; c_outs := [%s] |}", parenJoin(c.ops), strings.Join(c.outs, "; "))
 		tags := []string{tag, fmt.Sprintf("restarts:%d", min(c.restarts, 3))}
 		if c.synthDeletes {
